@@ -1,5 +1,6 @@
 import LunarVerif.Proofs.C04
 import LunarVerif.Proofs.C04Order
+import LunarVerif.Proofs.C04Ref
 /-!
 # C04 — Flow execution follows the configured processor graph
 
@@ -296,5 +297,143 @@ example :
     (okVal (load { quotas := [⟨"q1", "q1", true, false⟩, ⟨"q2", "q2", false, false⟩] } [])).map
       (fun l => l.selected.start.map (fun f => (f.req.root, f.req.nodes.map (·.key)))) =
     some [(some "q1_QuotaProcessorInc", ["q1_QuotaProcessorInc", "q2_QuotaProcessorInc"])] := by decide
+
+/-! ## 7. References to other flows
+
+Model: `Model/FlowGraphRef.lean` (`stepF` = `buildConnection` with the cases `flow(end) → processor` and
+`processor → flow(start)`, `incorporateF` = `incorporateFlow`, `foreignRoot`, node owners; the built direction
+is the graph of the flattened connection list `accOf`), `Model/C04Ref.lean` (`loadR`).  Spec:
+`Spec/C04Ref.lean` — a reference means: the referenced flow's connection list of that direction is spliced in.
+Statements hold for every recursion bound `fuel` of `incorporateFlow` (mutually referencing flows, for which
+the bound is exhausted, are C05's subject).  Open finding F04f: the engine connects the end of a spliced flow
+to what follows only in the request direction and, for `processor → flow(start)`, to the current root — the
+class `refDiverges` (flattened list ≠ spliced list) is the explicit hypothesis. -/
+
+/-- **build_refines_connections_ref.**  A direction built with flow references is exactly the graph of its
+    flattened connection list: root = target of its last `stream start → processor` connection, nodes = the
+    processors it mentions, followed edges = reference successors, first edge = first connection, every edge
+    leads to an existing node. -/
+theorem build_refines_connections_ref (pts : List PType) (reps : List RFlowRep) (fuel : Nat) (rep : RFlowRep)
+    (d : Dir) (g : DirGraph) (ow : List (String × String))
+    (hb : buildDirRef pts reps fuel rep d = .ok (g, ow)) :
+    let cs := accOf pts reps fuel rep d
+    g.root = entry cs ∧
+    (∀ k, (g.find k).isSome = mentioned cs k) ∧
+    (∀ k n o, g.find k = some n → matchT o n.edges = succs cs k o) ∧
+    (∀ k n, g.find k = some n → n.edges.head?.map (·.target) = (firstConn cs k).map toTarget) ∧
+    (∀ k n e t, g.find k = some n → e ∈ n.edges → e.target = .node t → (g.find t).isSome = true) := by
+  have h := buildDirRef_inv hb
+  exact ⟨h.root, find_isSome_eq h, fun k n o hn => node_succs h hn o, fun k n hn => first_edge h hn,
+    fun k n e t hn he ht => edge_target_exists h hn he ht⟩
+
+/-- **walk_refines_spec_ref_partial.**  For a flow built with references (any acyclic reference depth the
+    fuel covers) whose two directions flatten to their spliced lists (¬F04f) the engine's walk from any node
+    equals the reference interpreter's walk over the SPLICED connection lists (events, outcome,
+    short-circuit node), outside F04c. -/
+theorem walk_refines_spec_ref_partial (pts : List PType) (reps : List RFlowRep) (fuel : Nat) (rep : RFlowRep)
+    (fr : FlowR) (o : Oracle) (d : Dir) (wfuel : Nat) (k : String)
+    (hb : buildFlowRef pts reps fuel rep = .ok fr) (hk : ((fr.flow.dir d).find k).isSome = true)
+    (hf04 : ∀ dir, spliceDir reps fuel rep dir = some (accOf pts reps fuel rep dir))
+    (hc04 : ∀ a, (swalk (convR reps fuel ⟨.user, rep⟩) o d wfuel k).stop = some a →
+              mentioned (accOf pts reps fuel rep .res) a = true) :
+    (walk fr.flow o d wfuel k).trace = (swalk (convR reps fuel ⟨.user, rep⟩) o d wfuel k).trace ∧
+    (walk fr.flow o d wfuel k).err = (swalk (convR reps fuel ⟨.user, rep⟩) o d wfuel k).err ∧
+    (walk fr.flow o d wfuel k).sc = (swalk (convR reps fuel ⟨.user, rep⟩) o d wfuel k).stop := by
+  have hconv : convR reps fuel ⟨.user, rep⟩ = sflowOf (synthRep pts reps fuel rep) := by
+    unfold convR sflowOf synthRep
+    simp [hf04 .req, hf04 .res]
+  rw [hconv] at hc04 ⊢
+  obtain ⟨htr, hrest⟩ := walk_rel (built_of_buildFlowRef hb) o d wfuel k hk
+  have hok := sok_swalk (sflowOf (synthRep pts reps fuel rep)) o d wfuel k
+  cases hs : (swalk (sflowOf (synthRep pts reps fuel rep)) o d wfuel k).stop with
+  | none =>
+    rw [hs] at hrest
+    exact ⟨htr, hrest.2, hrest.1⟩
+  | some a =>
+    rw [hs] at hrest
+    have hm : mentioned (synthRep pts reps fuel rep).res a = true := hc04 a hs
+    simp only [hm, if_true] at hrest
+    have : (swalk (sflowOf (synthRep pts reps fuel rep)) o d wfuel k).err = none := hok (by simp [hs])
+    exact ⟨htr, by rw [hrest.2, this], hrest.1⟩
+
+/-- **txn_refines_spec_ref_partial** (connection theorem with references).  For every configuration with
+    flow references that the model loader accepts, every build order, oracle, direction and fuel: outside
+    F04f (`refDiverges`) and F04c (`finding`), and with quiet system flows, the engine model's transaction is
+    the reference interpreter's transaction on the spliced configuration. -/
+theorem txn_refines_spec_ref_partial (c : CfgR) (order : List String) (l : LoadedR) (o : Oracle) (d : Dir)
+    (fuel : Nat) (hl : loadR c order = .ok l)
+    (hf04 : refDiverges c = false)
+    (hq : SysQuiet (specCfgR c order) o)
+    (hc04 : finding (stxn (specCfgR c order) o fuel d) = none) :
+    (transaction l.toLoaded.selected o fuel d).trace = (stxn (specCfgR c order) o fuel d).trace ∧
+    (transaction l.toLoaded.selected o fuel d).err = (stxn (specCfgR c order) o fuel d).err :=
+  txn_eq_ref c order l o d fuel hl hf04 hq hc04
+
+/-- **build_order_independent.**  The order in which the engine happens to build the flows (Go map iteration
+    over `flowReps`) does not influence the built flows — graphs, roots, node owners — also when flows
+    reference each other: two orders under which the configuration loads give the same set of built flows. -/
+theorem build_order_independent (c : CfgR) (o1 o2 : List String) (l1 l2 : LoadedR)
+    (h1 : loadR c o1 = .ok l1) (h2 : loadR c o2 = .ok l2) (k : Kind) (f : FlowR) :
+    (k, f) ∈ l1.flows ↔ (k, f) ∈ l2.flows :=
+  loadR_order_independent h1 h2 k f
+
+def rS : REnd := .stream "globalStream" "start"
+def rE : REnd := .stream "globalStream" "end"
+
+/-- `f1`: request `start → A1 → end`, response `start → B1 → end` -/
+def wRefBase : FlowDeclR :=
+  ⟨.user, ⟨"f1", [("A1", "PU"), ("B1", "PU")],
+    [⟨rS, .proc "A1" ""⟩, ⟨.proc "A1" "", rE⟩], [⟨rS, .proc "B1" ""⟩, ⟨.proc "B1" "", rE⟩]⟩⟩
+
+/-- canonical references: request `flow f1 (end) → P2 → end`, response `start → Q2 → flow f1 (start)` -/
+def wCfgRefOK : CfgR :=
+  { ptypes := [wPU]
+    flows := [wRefBase,
+      ⟨.user, ⟨"f2", [("P2", "PU"), ("Q2", "PU")],
+        [⟨.flow "f1" "end", .proc "P2" ""⟩, ⟨.proc "P2" "", rE⟩],
+        [⟨rS, .proc "Q2" ""⟩, ⟨.proc "Q2" "", .flow "f1" "start"⟩]⟩⟩] }
+
+/-- mirrored reference in the response direction: `flow f1 (end) → Q2 → end` -/
+def wCfgRefF : CfgR :=
+  { ptypes := [wPU]
+    flows := [wRefBase,
+      ⟨.user, ⟨"f2", [("P2", "PU"), ("Q2", "PU")],
+        [⟨rS, .proc "P2" ""⟩, ⟨.proc "P2" "", rE⟩],
+        [⟨.flow "f1" "end", .proc "Q2" ""⟩, ⟨.proc "Q2" "", rE⟩]⟩⟩] }
+
+def modelTxnR (c : CfgR) (order : List String) (o : Oracle) (d : Dir) (fuel : Nat) :
+    Option (List Event × Option ExecErr) :=
+  (okVal (loadR c order)).map fun l =>
+    ((transaction l.toLoaded.selected o fuel d).trace, (transaction l.toLoaded.selected o fuel d).err)
+
+def specTxnR (c : CfgR) (order : List String) (o : Oracle) (d : Dir) (fuel : Nat) :
+    List Event × Option ExecErr :=
+  ((stxn (specCfgR c order) o fuel d).trace, (stxn (specCfgR c order) o fuel d).err)
+
+/-- non-vacuity: the canonical reference patterns load, are outside F04f, and run the referenced flow's
+    processors inside the referencing flow (request: `A1` then `P2`; response: `Q2` then `B1`). -/
+example :
+    refDiverges wCfgRefOK = false ∧
+    modelTxnR wCfgRefOK ["f1", "f2"] (fun _ _ _ => {}) .req 9 =
+      some ([.enter "f1" .req, .exec "f1" "A1" .req {}, .enter "f2" .req, .exec "f2" "A1" .req {},
+             .exec "f2" "P2" .req {}], none) ∧
+    modelTxnR wCfgRefOK ["f1", "f2"] (fun _ _ _ => {}) .res 9 =
+      some ([.enter "f2" .res, .exec "f2" "Q2" .res {}, .exec "f2" "B1" .res {}, .enter "f1" .res,
+             .exec "f1" "B1" .res {}], none) ∧
+    modelTxnR wCfgRefOK ["f1", "f2"] (fun _ _ _ => {}) .res 9 =
+      some (specTxnR wCfgRefOK ["f1", "f2"] (fun _ _ _ => {}) .res 9) := by decide
+
+/-- **ref_response_end_witness (F04f).**  `flow f1 (end) → Q2` in the RESPONSE direction: the engine makes
+    `f1`'s entry the root but leaves `B1 → stream end` as it is (`connectProcessorToStream` redirects only in
+    the request direction), so `Q2` never runs; the spliced list continues from `B1` to `Q2`. -/
+theorem ref_response_end_witness :
+    ∃ (c : CfgR) (order : List String) (o : Oracle) (fuel : Nat),
+      refDiverges c = true ∧
+      modelTxnR c order o .res fuel =
+        some ([.enter "f2" .res, .exec "f2" "B1" .res {}, .enter "f1" .res, .exec "f1" "B1" .res {}], none) ∧
+      specTxnR c order o .res fuel =
+        ([.enter "f2" .res, .exec "f2" "B1" .res {}, .exec "f2" "Q2" .res {}, .enter "f1" .res,
+          .exec "f1" "B1" .res {}], none) :=
+  ⟨wCfgRefF, ["f1", "f2"], fun _ _ _ => {}, 9, by decide, by decide, by decide⟩
 
 end LunarVerif.C04
